@@ -351,9 +351,13 @@ func runC04(cfg *runCfg) error {
 	if err != nil {
 		return err
 	}
-	m.Evaluations = len(cases) + nSeg
+	nDup, err := c04DuplexFamily(cfg, r, cf, m)
+	if err != nil {
+		return err
+	}
+	m.Evaluations = len(cases) + nSeg + nDup
 	m.DistinctNontrivial = nontrivial
-	m.Rule = fmt.Sprintf("every sequence up to length %d over a 9-symbol alphabet (QoS0, QoS1 id1 fresh/dup, QoS2 id1 fresh/dup, QoS2 id2, PUBREL 1/2/3) with a handler (and without for length<=2), plus %d random sequences of 4-15 packets with ids from a pool of three; fed as one byte stream to a connected BaseClient; non-trivial = distinct sequence containing a QoS 2 PUBLISH and a PUBREL; family seg: %d histories in which the handler is registered late, removed or replaced between segments of the stream (BaseClient directly, and RetryClient with the first segment in the same burst as CONNACK while the ConnState callback is slow), hand-overs tagged with the receiving handler", L, nRand, nSeg)
+	m.Rule = fmt.Sprintf("every sequence up to length %d over a 9-symbol alphabet (QoS0, QoS1 id1 fresh/dup, QoS2 id1 fresh/dup, QoS2 id2, PUBREL 1/2/3) with a handler (and without for length<=2), plus %d random sequences of 4-15 packets with ids from a pool of three; fed as one byte stream to a connected BaseClient; non-trivial = distinct sequence containing a QoS 2 PUBLISH and a PUBREL; family seg: %d histories in which the handler is registered late, removed or replaced between segments of the stream (BaseClient directly, and RetryClient with the first segment in the same burst as CONNACK while the ConnState callback is slow), hand-overs tagged with the receiving handler; family duplex: %d random inbound streams served while another goroutine publishes QoS 2 messages on the same client and every client write takes 100 us in the peer", L, nRand, nSeg, nDup)
 	m.Distribution["enumerated"] = nEnum
 	m.Distribution["random"] = nRand
 	m.Distribution["packet_kinds"] = kinds
